@@ -781,8 +781,9 @@ func runC01R3(c *Ctx) {
 				continue
 			}
 			n++
-			top := outermost(fn).Name()
-			if top == "putTxLabels" && short == "CreateBucketIfNotExists" {
+			// (the function that owns the code: a private part belongs to the only function that uses it)
+			top := p.regionOwner(fn).Name()
+			if (top == "putTxLabels" || outermost(fn).Name() == "putTxLabels") && short == "CreateBucketIfNotExists" {
 				// frozen exception (read and confirmed): DropTransactionHistory re-creates the
 				// labels bucket 'l' and re-inserts labels through wtxmgr.PutTxLabel; it never
 				// touches u, c, d, m*, bal.
